@@ -8,7 +8,7 @@ Section Pres.
 Variable c : cfg.
 Hypothesis Hc : cfg_ok c.
 
-Ltac start HI H s := intros HI H; destruct Hc as [Hb Hn]; open_state s; cbn in H.
+Ltac start HI H s := intros HI H; destruct Hc as [Hb Hn Hdm]; open_state s; cbn in H.
 Ltac q_inv :=
   match goal with
   | Q : _ = true -> _ = true -> _ = false -> _ /\ _ |- _ =>
@@ -35,6 +35,13 @@ Proof.
   start HI H s. guards H. inversion H; subst; clear H. bools. subst. destruct HI; cbn in *.
   match goal with X : _ || _ = true |- _ => apply orb_true_iff in X; destruct X; bools; subst end;
     constructor; cbn; fin.
+Qed.
+
+Lemma presS_PLookup s o present s' : InvS s -> step c s (PLookup o present) = Some s' -> InvS s'.
+Proof.
+  start HI H s. guards H; inversion H; subst; clear H; bools; subst; destruct HI; cbn in *;
+    destruct (i_pin _ eq_refl) as (P1 & P2 & P3 & P4); destruct (i_f0 ltac:(discriminate)) as [F1 F2]; subst;
+    try (destruct tp; cbn); constructor; cbn; fin.
 Qed.
 
 Lemma presS_PInvoke s o ok s' : InvS s -> step c s (PInvoke o ok) = Some s' -> InvS s'.
